@@ -273,6 +273,11 @@ def parse_type(s):
 
 def _rand_leaf(rng, n):
     dt = rng.choice(["i64", "i64", "i32", "f64", "b", "u8"])
+    if rng.random() < 0.06:
+        # extremes of the integer types: what a widening copy (concatenation with another dtype) must not bend
+        dt = rng.choice(["u32", "i64", "u8", "i32"])
+        lo, hi = {"u32": (0, 2 ** 32 - 1), "i64": (-2 ** 62, 2 ** 62), "u8": (0, 255), "i32": (-2 ** 31, 2 ** 31 - 1)}[dt]
+        return {"c": "Numpy", "dt": dt, "d": [rng.choice([lo, hi, hi - 1, lo + 1, (lo + hi) // 2 + 1, 3]) for _ in range(n)]}
     if dt == "b":
         d = [rng.randint(0, 1) for _ in range(n)]
     elif dt == "u8":
@@ -519,30 +524,34 @@ def _worker_step(op, a):
     return {"op": op, "axis": a["axis"], "ascending": a["asc"], "stable": a["stable"]}
 
 
-def _tag(x):
-    """json value -> tagged AkValue value; raises ValueError for values the model does not carry (non-integral floats)"""
+def _tag(x, big_ok=False):
+    """json value -> tagged AkValue value; raises ValueError for values the model does not carry (non-integral floats).
+    big_ok: integers beyond TLC's 32 bits become opaque tokens [t |-> "big", s |-> decimal text]: enough for operations that
+    only MOVE values (concatenation, slicing, conversions), which compare them for equality and nothing else"""
     if x is None:
         return {"t": "none"}
     if isinstance(x, bool):
         return {"t": "int", "x": 1 if x else 0}
     if isinstance(x, int):
         if abs(x) >= 2 ** 31:
+            if big_ok:
+                return {"t": "big", "s": str(x)}
             raise ValueError("big")
         return {"t": "int", "x": x}
     if isinstance(x, float):
         if x != x:
             return {"t": "nan"}
-        if x != int(x) or abs(x) >= 2 ** 31:
+        if x != int(x) or (abs(x) >= 2 ** 31 and not big_ok) or abs(x) >= 2 ** 53:
             raise ValueError("non-integral")
-        return {"t": "int", "x": int(x)}
+        return {"t": "int", "x": int(x)} if abs(x) < 2 ** 31 else {"t": "big", "s": str(int(x))}
     if isinstance(x, str):
         if x == "nan":
             return {"t": "nan"}
         raise ValueError("string")
     if isinstance(x, list):
-        return {"t": "list", "xs": [_tag(e) for e in x]}
+        return {"t": "list", "xs": [_tag(e, big_ok) for e in x]}
     if isinstance(x, dict):
-        return {"t": "rec", "ks": list(x.keys()), "vs": [_tag(e) for e in x.values()]}
+        return {"t": "rec", "ks": list(x.keys()), "vs": [_tag(e, big_ok) for e in x.values()]}
     raise ValueError(x)
 
 
